@@ -404,3 +404,4 @@ def _r13_5(res, P, cfgname):
 
 LEVEL = LEVEL + ' Also (R13.4) every raw residue literal takes its value from a ring kernel, a reviewed producer, 0, or a value compared with the normalised divisor; (R15.4b, shared) Reduced::clone_from copies residue and ring on every path; (R19.2, shared) no modular step sits inside a debug assertion; compile-fail witness (thorough): a Reduced value cannot outlive its ring.'
 TECHNIQUE = 'must-pass-through of the ring-identity checks before every kernel; edge analysis of Option::None -> panic; constructor sets; provenance rule for raw residues; clone_from field completeness (must-pass-through over field writes); compile-fail witness'
+LEVEL = LEVEL + ' Also (R13.5) the Single and Double ring arms of a function call the same accessors on the ring.'
